@@ -488,6 +488,20 @@ class Parser:
         if self.peek()[1] == '..':
             self.next()
             return ('mrest',)
+        if self.peek()[1] == '[':
+            # slice pattern `[a, 0, rest @ .., z]`: elements are literals, `_`, bindings, `..` or `name @ ..`
+            self.next()
+            elems = []
+            while not self.accept(']'):
+                if self.peek()[0] == 'id' and self.peek(1)[1] == '@':
+                    nm = self.next()[1]
+                    self.next()
+                    self.expect('..')
+                    elems.append(('mrestbind', nm))
+                else:
+                    elems.append(self.parse_match_pat())
+                self.accept(',')
+            return ('mslice', elems)
         if self.peek()[0] == 'id' and (self.peek(1)[1] in ('(', '::') or self.peek()[1] == 'None'):
             path = [self.next()[1]]
             while self.accept('::'):
@@ -660,6 +674,8 @@ class Parser:
                 else:
                     b = self.parse_block()
             return ('if', c, a, b)
+        if v == '||':
+            return ('closure', [], self.parse_expr())       # closure without parameters
         if v == '|':
             # closure `|x| body` / `|&x| body`
             params = []
@@ -676,6 +692,8 @@ class Parser:
             arms = []
             while not self.accept('}'):
                 pat = self.parse_match_pat()
+                if self.accept('if'):
+                    pat = ('mguard', pat, self.parse_expr())          # `pat if guard => …`
                 self.expect('=>')
                 if self.peek()[1] in ('return', 'break', 'continue'):
                     st = self.parse_stmt()                  # `pat => return e,`
@@ -1055,6 +1073,40 @@ class Emitter:
                     self.pat_walk(q, '(%s)%s' % (term, proj), slots[i], conds, binds)
                 return
             raise TranslateError('constructor pattern %s against %r' % ('::'.join(pat[1]), ty))
+        if pat[0] == 'mslice':
+            if ty not in ('slice', 'mutslice'):
+                raise TranslateError('slice pattern against %r' % (ty,))
+            elems = pat[1]
+            ri = [i for i, q in enumerate(elems) if q[0] in ('mrest', 'mrestbind')]
+            if len(ri) > 1:
+                raise TranslateError('two rest patterns in a slice pattern')
+            nfix = len(elems) - len(ri)
+            if ri:
+                conds.append('(decide (%d ≤ (%s).length))' % (nfix, term))
+            else:
+                conds.append('((%s).length == %d)' % (term, nfix))
+            pre = elems[:ri[0]] if ri else elems
+            suf = elems[ri[0] + 1:] if ri else []
+            for i, q in enumerate(pre):
+                self.pat_walk(q, '((%s).getD %d 0)' % (term, i), 'u8' if getattr(self, 'slice_elem', None) is None else self.slice_elem, conds, binds)
+            for j, q in enumerate(suf):
+                self.pat_walk(q, '((%s).getD ((%s).length - %d) 0)' % (term, term, len(suf) - j), 'u8', conds, binds)
+            if ri and elems[ri[0]][0] == 'mrestbind':
+                binds.append((elems[ri[0]][1], '(((%s).drop %d).take ((%s).length - %d))' % (term, len(pre), term, nfix), 'slice'))
+            return
+        if pat[0] == 'mguard':
+            c2, b2 = [], []
+            self.pat_walk(pat[1], term, ty, c2, b2)
+            env2 = dict(getattr(self, 'cur_env', {}))
+            lets = ''
+            for n, t_, ty_ in b2:
+                env2[n] = ty_
+                lets += 'let %s := %s; ' % (lean_ident(n), t_)
+            sg, _ = self.expr(pat[2], env2, 'bool')
+            conds.extend(c2)
+            conds.append('(%s%s)' % (lets, sg))
+            binds.extend(b2)
+            return
         if pat[0] == 'mor':
             # alternatives: the arm is taken when one matches; bindings come from the first alternative that does
             allb = []
@@ -1500,6 +1552,14 @@ class Emitter:
             # exact on integer arguments — trusted, as in the hand model)
             sn, _ = self.expr(r0[1], env, 'usize')
             return '(Ruint.Float.exp2Int %s %s)' % (FFMT[self.ty(r0[2])], sn), self.ty(r0[2])
+        if name == 'ok_or_else' and len(args) == 1 and args[0][0] == 'closure' and not args[0][1]:
+            # `opt.ok_or_else(|| e)`: `Some(v)` is `Ok(v)`, `None` is `Err(e)`
+            so, to = self.expr(recv, env, None)
+            if not (isinstance(to, tuple) and to[0] == 'option'):
+                raise TranslateError('ok_or_else on a non-Option')
+            rt_ = exp if isinstance(exp, tuple) and exp[0] == 'result' else self.inner_rt
+            se, te = self.expr(args[0][2], env, rt_[2] if isinstance(rt_, tuple) and len(rt_) > 2 else None)
+            return '(match %s with\n  | some v_ => Except.ok v_\n  | none => Except.error %s)' % (so, se), ('result', to[1], te)
         if name == 'ok' and not args:
             # `res.ok()`: `Ok(v)` is `Some(v)`, an error is `None`
             inner_exp = exp[1] if isinstance(exp, tuple) and exp[0] == 'option' else None
@@ -1761,6 +1821,16 @@ class Emitter:
                 raise TranslateError('panic site in a loop without a result slot')
             return self.finish(result, env, ('ret', 'none'))[0]
         return 'none'
+
+    def any_panicking(self, node):
+        """does `node` contain a call that can panic (see `panicking`)"""
+        if isinstance(node, list):
+            return any(self.any_panicking(x) for x in node)
+        if isinstance(node, tuple) and node:
+            if self.panicking(node):
+                return True
+            return any(self.any_panicking(x) for x in node[1:])
+        return False
 
     def panicking(self, e):
         """is `e` (at its root) a call that can panic: `expect` / `unwrap`, or a translated function recorded as panicking"""
@@ -2165,7 +2235,8 @@ class Emitter:
                 self.consts[s[1]] = (term, t)
             return self.stmts(rest, env, exp, result)
         if k in ('expr', 'expr_nosemi', 'tail') and s[1][0] == 'match' and (
-                rest or self.fn_return_in(s) or (isinstance(result, tuple) and result[0] == 'loop') or isinstance(result, list)):
+                rest or self.fn_return_in(s) or (isinstance(result, tuple) and result[0] == 'loop') or isinstance(result, list)
+                or (getattr(self, 'panics', False) and self.any_panicking([b for _, b in s[1][2]]))):
             # `match scalar { lit => arm, …, _ => arm }` as a statement: `let t = scalar; if t == lit { arm } else if … else { arm }`
             _, scrut, arms = s[1]
             self.tmp = getattr(self, 'tmp', 0) + 1
@@ -2194,6 +2265,8 @@ class Emitter:
                     if chain is not None:
                         raise TranslateError('irrefutable match arm before the last one')
                     chain = blk(body)
+                    if pat[0] == 'mbind':
+                        chain = ('block', [('let', ('pid', pat[1]), None, ('raw', t, te))] + chain[1])   # the arm's binding
                     continue
                 if pat[0] not in ('mlit', 'mbool'):
                     # structured patterns (tuples, constructors, alternatives): the tests and bindings of `pat_walk`
@@ -3033,6 +3106,8 @@ class Emitter:
             return ' × '.join(['Nat'] + [self.lean_ty(x) for x in self.enum_slots(t)])
         if isinstance(t, tuple) and t[0] == 'result':
             et_ = t[2] if len(t) > 2 and isinstance(t[2], tuple) and t[2][0] == 'enum' else None
+            if len(t) > 2 and isinstance(t[2], str) and t[2] in WIDTH:
+                return 'Except Nat (%s)' % self.lean_ty(t[1])           # an error code
             return 'Except (%s) (%s)' % (self.lean_ty(et_) if et_ else 'Nat × Nat × Nat', self.lean_ty(t[1]))
         if t == 'uint' and getattr(self, 'uint_mode', False) == 'value':
             return 'Nat'
@@ -3634,6 +3709,22 @@ def facade_items(repo):
     return out
 
 
+def der_items(repo):
+    """the two DER content decoders of src/support/der.rs (`from_der_slice`, `from_der_uint_slice`): slice patterns with guards,
+    `?` on the matched `Result`, `ok_or_else`, over the generated `try_from_be_slice`. Declared rewrites: the three error
+    constructors of the `der` crate become the codes 0 (length), 1 (non-canonical), 2 (value), and `der::Result<T>` is
+    `Result<T, u64>`."""
+    f = repo + '/src/support/der.rs'
+    sub = {'Tag::Integer.length_error()': '0u64', 'Tag::Integer.non_canonical_error()': '1u64', 'Tag::Integer.value_error()': '2u64',
+           ') -> Result<Uint<BITS, LIMBS>> {': ') -> Result<Uint<BITS, LIMBS>, u64> {',
+           # the free functions name the type as `Uint` (its parameters are inferred from the return type): `Self` here
+           'Uint::try_from_be_slice': 'Self::try_from_be_slice', 'Uint::ZERO': 'Self::ZERO'}
+    u = {'file': f, 'uint': True, 'self_ty': 'uint', 'group': 'der', 'externs': UINT_EXTERNS, 'subst': sub,
+         'call_alias': {}}
+    return [dict(u, fn='from_der_slice', lean='der_from_der_slice', key='der::from_der_slice'),
+            dict(u, fn='from_der_uint_slice', lean='der_from_der_uint_slice', key='der::from_der_uint_slice')]
+
+
 def macro_items(repo):
     """`pad_limbs` of the `uint!` proc macro (ruint-macro/src/lib.rs): trim / pad to the limb count and the range check"""
     return [{'file': repo + '/ruint-macro/src/lib.rs', 'fn': 'pad_limbs', 'lean': 'macro_pad_limbs', 'group': 'macro'}]
@@ -3711,7 +3802,8 @@ GROUPS = [('core', 'Words', ('Ruint.Gen.Prelude',)),
           ('tofloat', 'WordsToFloat', ('Ruint.Gen.WordsUint', 'Ruint.Model.Float')),
           ('intshift', 'WordsIntShift', ('Ruint.Gen.WordsUint',)),
           ('facade', 'WordsFacade', ('Ruint.Gen.WordsUint', 'Ruint.Gen.WordsUintDiv', 'Ruint.Gen.WordsUintMod', 'Ruint.Gen.WordsIntShift',
-                                     'Ruint.Gen.WordsBytes', 'Ruint.Gen.WordsConv', 'Ruint.Gen.WordsConv2'))]
+                                     'Ruint.Gen.WordsBytes', 'Ruint.Gen.WordsConv', 'Ruint.Gen.WordsConv2')),
+          ('der', 'WordsDer', ('Ruint.Gen.WordsBytes',))]
 
 
 def translate_all(repo):
@@ -3745,6 +3837,7 @@ def translate_all(repo):
     items += to_float_items(repo)
     items += int_shift_items(repo)
     items += facade_items(repo)
+    items += der_items(repo)
     try:
         items += lehmer_items(repo)
     except (OSError, IOError) as ex:
